@@ -43,6 +43,45 @@ Proof.
   - exact (comp_unl_spec enum H P HwfH HwfP Hor strict).
 Qed.
 
+(** the same at a given threshold that is not binding (e.g. the default 5000) *)
+Theorem comp_spec_at (strict : bool) (H P : graph) (T : N) :
+  gwf H -> gwf P -> oracle_ok enum H P -> not_binding enum 1 strict H P T ->
+  let R := find enum (Cfg 1 0 T strict false) H P in
+  let hcc := length (comps H) in
+  let pcc := length (comps P) in
+  NoDupA (@Permutation (N * N)) R /\
+  if (0 <? pcc) && (pcc <? hcc) && strict then R = []
+  else if hcc <? pcc then
+    (forall m, In m R -> is_mono H P m) /\
+    (forall m, is_mono H P m -> exists m', In m' R /\ Permutation m m')
+  else
+    (forall m, In m R -> is_mono H P m /\ separating H P m) /\
+    (forall m, is_mono H P m -> separating H P m -> exists m', In m' R /\ Permutation m m').
+Proof.
+  intros HwfH HwfP Hor Hnb. destruct (comp_spec strict H P HwfH HwfP Hor) as (T0 & HT0).
+  cbv zeta. rewrite <- (Hnb (N.max T T0)) by lia. apply (HT0 (N.max T T0)). lia.
+Qed.
+
+(** the call with every option omitted: component-aware, strict component count, threshold 5000 *)
+Theorem default_call_spec (H P : graph) :
+  gwf H -> gwf P -> oracle_ok enum H P -> not_binding enum 1 true H P 5000 ->
+  exists R, find_api enum SDefault None None None None H P = Result R /\
+  let hcc := length (comps H) in
+  let pcc := length (comps P) in
+  NoDupA (@Permutation (N * N)) R /\
+  if (0 <? pcc) && (pcc <? hcc) then R = []
+  else if hcc <? pcc then
+    (forall m, In m R -> is_mono H P m) /\
+    (forall m, is_mono H P m -> exists m', In m' R /\ Permutation m m')
+  else
+    (forall m, In m R -> is_mono H P m /\ separating H P m) /\
+    (forall m, is_mono H P m -> separating H P m -> exists m', In m' R /\ Permutation m m').
+Proof.
+  intros HwfH HwfP Hor Hnb. exists (find enum (Cfg 1 0 5000 true false) H P). split; [reflexivity|].
+  pose proof (comp_spec_at true H P 5000 HwfH HwfP Hor Hnb) as Hs. cbv zeta in *.
+  rewrite andb_true_r in Hs. exact Hs.
+Qed.
+
 (** fallback strategy, no limits *)
 Theorem bt_spec_unlimited (strict : bool) (H P : graph) :
   exists T0 : N, forall T : N, (T0 <= T)%N ->
@@ -310,6 +349,22 @@ Qed.
 Example ex_table_bad :
   table_ok2 Hx Px [([1; 2; 3; 4; 5], [10; 11], [[(10, 4); (11, 5)]; [(10, 3); (11, 5)]; [(10, 1); (11, 5)]])]%N = false.
 Proof. vm_compute. reflexivity. Qed.
+
+(** the default call: [] on the mixture (3 host components, 1 pattern component), the 3
+    separating matches for Hx / Px; 5000 is not binding there (the result is stable from 4 on) *)
+Example ex_default_call :
+  find_api (monos_on Mix COH) SDefault None None None None Mix COH = Result [] /\
+  find_api (monos_on Hx Px) SDefault None None None None Hx Px = Result ex_comp /\
+  find_api (monos_on Hx Px) (SStr [66; 84]%N) (Some 1%N) None None None Hx Px = Result (firstn 1 ex_comp) /\
+  find_api (monos_on Hx Px) (SStr [98; 116; 32]%N) None None None None Hx Px = ValueError /\
+  find_api (monos_on Hx Px) (SMember 3) None None None None Hx Px = NotImplemented.
+Proof. repeat split; vm_compute; reflexivity. Qed.
+
+Example ex_not_binding : not_binding (monos_on Hx Px) 1 true Hx Px 5000.
+Proof.
+  intros T' HT. rewrite !(find_comp_unlimited (monos_on Hx Px)); [reflexivity| |];
+    (eapply N.le_trans; [|try exact HT; apply N.le_refl]); vm_compute; discriminate.
+Qed.
 
 (** limits: truncation, emptying, and the per-component enumeration guard *)
 Example ex_limits :
